@@ -7,7 +7,7 @@ from __future__ import annotations
 
 import ast
 
-from ..astq import comes_before, arg, ext_names, handler_classes, inside, is_name, loc, lock_withs, names_in, stmt_of, in_body
+from ..astq import comes_before, arg, ext_names, handler_catches_all, handler_classes, inside, is_name, loc, lock_withs, names_in, stmt_of, in_body
 from ..cfg import CFG, any_call_may_raise
 from ..model import AnalysisError, head, norm
 from . import roles
@@ -122,10 +122,14 @@ def check(ctx):
         if not ok:
             # admitted: sort inside try whose TypeError handler falls back to a total key
             fb = False
+            narrow = False
             for t in [n for n in f.own_nodes() if isinstance(n, ast.Try)]:
                 if in_body(f.module, c, t, "body"):
                     for h in t.handlers:
-                        if set(handler_classes(h)) & {"TypeError", "Exception", "BaseException"}:
+                        # the comparison of two user values can raise anything (TypeError for unorderable types, ArithmeticError for
+                        # Decimal('NaN'), whatever a user-defined __lt__ raises): only a handler for Exception covers the natural key
+                        narrow = narrow or bool(set(handler_classes(h)) & {"TypeError", "ValueError", "ArithmeticError"})
+                        if handler_catches_all(h) or set(handler_classes(h)) & {"Exception", "BaseException"}:
                             for c2 in [x for x in ast.walk(h) if isinstance(x, ast.Call) and x in f.own_calls()]:
                                 if (f, c2) in sites:
                                     k2 = arg(c2, None, "key")
@@ -134,7 +138,10 @@ def check(ctx):
                                         fb = True
             in_handler = any(inside(f.module, c, h) for n in f.own_nodes() if isinstance(n, ast.Try) for h in n.handlers)
             ok = fb
-            why = ("raw scope values in the key, with a TypeError fallback to a total key" if fb else
+            why = ("raw scope values in the key, with a fallback to a total key whenever their comparison raises" if fb else
+                   "raw scope values are compared by the sort key and the fallback to a total key is taken for some exception classes only: "
+                   "a comparison that raises something else (Decimal('NaN') < Decimal(1) raises decimal.InvalidOperation, an "
+                   "ArithmeticError) ends the update thread and the display stops" if narrow else
                    "raw scope values are compared by the sort key: two values of one type that cannot be ordered (complex, "
                    "instances without __lt__) raise TypeError in the update thread and the display stops")
             if in_handler and verdict != "total":
